@@ -305,6 +305,13 @@ def run_task(args):
     t0 = time.time()
     ring.reset()
     symnp.INVENTORY.clear()
+    try:  # einsumt's module-level ThreadPool does not survive fork(): give the worker a live one
+        import einsumt as _e
+        from multiprocessing.pool import ThreadPool
+
+        _e.default_thread_pool = ThreadPool(4)
+    except Exception:
+        pass
     rng = random.Random(seed * 7919 + hash(cname) % 1000 + ci)
     np.random.seed(seed % (2**31))
     vk = VK(c, cfg, "sym", rng=rng, tier=tier)
